@@ -487,7 +487,7 @@ func htmlFaults(c *hx.Ctx, seed uint64, budget int) {
 			c.Count("html-number")
 		}
 	}
-	for _, depth := range []int{1000, 20000} {
+	for _, depth := range []int{300, 1500} {
 		d := "<!DOCTYPE html><html><body>" + strings.Repeat("<div><ul><li>", depth) + "deep" + "</body></html>"
 		n++
 		runBytes(c, kase{Format: "html", Seed: seed, Faults: []fault{{Kind: "nesting", Site: depth}}}, ".html", []byte(d), "h")
